@@ -335,6 +335,8 @@ class PeerConn:
                     self.close(notify=False)
                 elif op == "reset":
                     self.reset()
+                elif op == "mark":
+                    self.events.append(("mark", self.loop.time()))
                 elif op == "stall":
                     return
                 if self.tcp is None or self.tcp.lost:
